@@ -239,6 +239,12 @@ def run(ctx, spec):
         ce2 = float(10.0 ** int(rng.integers(-30, 31)))
         ctx.close("corr_scale_extreme", C.correlation_centroid(im[None] * ce2, ref * ce2, cthr, pad), got3, 1e-9 * max(nx, ny),
                   "correlation_centroid:scale_invariance:extreme_factor", dict(w6, factor=ce2))
+        # the whole double-precision range of flux units is legal: correlations of 1e+-160 are finite numbers, their squares are not
+        for f_im, f_ref in ((1e80, 1e80), (1e-80, 1e-80), (1e165, 1.0), (1.0, 1e-165)):
+            with np.errstate(all="ignore"):
+                g_hr = C.correlation_centroid(im[None] * f_im, ref * f_ref, cthr, pad)
+            ctx.close("corr_scale_range", g_hr, got3, 1e-9 * max(nx, ny), "correlation_centroid:scale_invariance:float64_range",
+                      dict(w6, factor_image=f_im, factor_reference=f_ref))
         ctx.close("corr_scale_ref", C.correlation_centroid(im[None].copy(), ref * cr, cthr, pad), got3, 1e-9 * max(nx, ny), "correlation_centroid:scale_invariance:reference", w6)
         others = [np.roll(ref, (int(rng.integers(-kmax, kmax + 1)), int(rng.integers(-kmax, kmax + 1))), axis=(0, 1)) * (i + 1.0) for i in range(int(rng.integers(1, 4)))]
         if rng.random() < 0.5:
